@@ -6,7 +6,6 @@ import (
 	"strings"
 	"sync"
 	"sync/atomic"
-	"time"
 
 	"github.com/cnotch/ipchub/av/format/flv"
 	"github.com/cnotch/ipchub/config"
@@ -220,7 +219,7 @@ func (sc FlvScript) RunImpl(want string) string {
 		return strings.Join(parts, " ")
 	}
 	got := ""
-	Eventually(8*time.Second, func() bool { got = obs(); return got == want })
+	Eventually(opBudget, func() bool { got = obs(); return got == want })
 	w.S.Close()
 	return got
 }
